@@ -34,7 +34,10 @@ impl RustDocument {
     }
 
     pub fn extend(&mut self, other: RustDocument) {
-        self.namespace_lookup.extend(other.namespace_lookup);
+        // prefixes bound by the importing document keep their meaning
+        for (abbreviation, namespace) in other.namespace_lookup {
+            self.namespace_lookup.entry(abbreviation).or_insert(namespace);
+        }
 
         extend_no_duplicates(&mut self.namespaces, other.namespaces);
         extend_no_duplicates(&mut self.target_namespaces, other.target_namespaces);
